@@ -32,4 +32,19 @@ CHECKS = {
         "quick": [T("TestC19", 8, 2500, steps=40)],
         "thorough": [T("TestC19", 16, 60000, steps=50, timeout=3000)],
     },
+    "C13": {
+        "level": "exploration",
+        "rule": ("rapid state machine over the real SimpleLedger on leveldb (3 accounts x 8 keys incl. prefixes of each "
+                 "other, empty key, bytes >= 0x80; account-cache sizes production/1/2): SetState, delete, AddState, "
+                 "GetState, balance/nonce/code setters, QueryByPrefix, nested Snapshot/RevertToSnapshot, Finalise, "
+                 "FlushDirtyData+Commit, close+reopen. Oracle: map-based reference model with snapshot stack compared "
+                 "after every step and in full at the end. Non-trivial = a key whose latest value moved between layers "
+                 "(dirty/cache/db) across a commit or reopen, or a revert with >=2 live snapshots; distinct = hash of the "
+                 "operation history."),
+        "assumptions": ["empty value and absent value are not distinguished (nil == \"\")",
+                        "a key written with the non-journaled AddState after a snapshot is unspecified after reverting to it",
+                        "reopen happens at block boundaries only (uncommitted in-block writes are lost by design)"],
+        "quick": [T("TestC13", 8, 1200, steps=50)],
+        "thorough": [T("TestC13", 16, 30000, steps=80, timeout=3000)],
+    },
 }
